@@ -22,7 +22,7 @@ for d in sorted(dirs, key=lambda p: (os.path.basename(p).split("-")[0], int(os.p
         how = "%s `%s`" % (m["property"], sig) if sig else "%s: broken obligation %s, reported `no-failing-input-found`" % (
             m["property"], ", ".join("`%s`" % x for x in det.get("broken_obligations", [])))
     elif other:
-        how = "not by %s (a schedule property: its check is sequential) — caught by %s `%s`" % (m["property"], other["check"], other["signature"])
+        how = "not by %s — caught by %s `%s` (%s)" % (m["property"], other["check"], other["signature"], other.get("note", ""))
     else:
         how = "**missed**"
         missed += 1
